@@ -1220,6 +1220,8 @@ class Interp:
             return z3.IsMember(to_z3(item, container.ksort), container.dom)
         if isinstance(container, Untracked) or isinstance(item, Untracked):
             return Untracked()
+        if isinstance(container, Obj) and ('contains', container.cls) in self.spec.field_sorts:
+            return self.spec.field_sorts[('contains', container.cls)](self, container, item, node)
         if self.is_pydict(container):
             return self.ctx.fresh('nondet', BoolS)
         if self.is_pyany(container):
